@@ -907,3 +907,45 @@ def struct_map(P, fn_qual, target_short, mapping, src_root, exempt=None, variant
         if not re.search(mapping[f], got.get(f, '')):
             r.bad('miswired-field:' + f, 'in `%s` %s.%s is built from `%s`, expected origin /%s/' % (fn['qual'], target_short, f, got.get(f, ''), mapping[f]), where=[ln])
     return r
+
+
+# ------------------------------------------------------------------------------ branch-conditioned must-pass
+def branch_must_pass(P, fn_qual, cond_rx, when_true, callee_rx, to_any_exit=False):
+    """on the side of the branch `if <cond matching cond_rx>` selected by `when_true`, every path to a success
+    return (or to any exit) passes a call matching callee_rx"""
+    fn = P.fn(fn_qual)
+    body = P.body(fn)
+    gx = GuardExtractor(body)
+    crx, rx = re.compile(cond_rx), re.compile(callee_rx)
+    r = Res()
+    calls = [bi for bi, t in body.calls(lambda t: call_matches(t, rx))]
+    found = False
+    for bi, b in enumerate(body.B):
+        t = b['term']
+        if b.get('cu') or t['k'] != 'switch' or t['d']['k'] not in ('copy', 'move') or t['d']['pl']['p']:
+            continue
+        l = t['d']['pl']['l']
+        if body.fn['locals'][l]['ty'] != 'bool' or len(t['ts']) != 1:
+            continue
+        rel = gx.cond_of_local(l)
+        txt = '%s %s %s' % (rel[1], rel[0], rel[2])
+        if not crx.search(txt):
+            continue
+        positive = rel[0] in ('truth', '==', '<', '<=', '>', '>=', '!=')
+        v, tgt = t['ts'][0]
+        false_t, true_t = (tgt, t['o']) if v == '0' else (t['o'], tgt)
+        if rel[0] == 'not':
+            false_t, true_t = true_t, false_t
+        start = true_t if when_true else false_t
+        found = True
+        r.site('%s @%s if %s' % (fn['qual'], b['ln'], txt[:100]))
+        barriers = set(body.term(c)['t'] for c in calls if body.term(c)['t'] >= 0)
+        avoid = barriers | (set() if to_any_exit else set(body.err_blocks))
+        reach = body.reach([start], avoid)
+        if any(body.term(x)['k'] == 'return' for x in reach):
+            r.bad('bypass', 'in `%s`, when `%s` is %s, an exit is reachable without %s' % (fn['qual'], txt[:120], when_true, callee_rx), where=[b['ln']])
+    if not found:
+        raise AnchorMissing('`%s` has no branch on a condition matching /%s/' % (fn_qual, cond_rx))
+    if not calls:
+        r.bad('call-missing', '`%s` no longer calls %s' % (fn['qual'], callee_rx))
+    return r
